@@ -6,7 +6,7 @@
     acceptance means.  ([instr_at code pc]: the instruction at program counter [pc];
     [succs pc i]: its control-flow successors; [len]: the exit.) *)
 From Coq Require Import ZArith List Bool.
-From HPBF Require Import Cell IO BC BCWf BCWfProofs.
+From HPBF Require Import Cell IO BC BCWf BCWfProofs BCProofs.
 Import ListNotations.
 Open Scope Z_scope.
 
@@ -54,6 +54,13 @@ Proof.
   destruct (Z.testbit (defs i) t) eqn:E; [|reflexivity]. exfalso. apply ND. apply defs_writes. exact E.
 Qed.
 
+(** semantic reading of the branch-target clause: an accepted program, run by the bytecode
+    semantics in either mode from the initial state, never fetches outside its code *)
+Theorem C11_never_leaves_code : forall num_regs fuse p, bc_wf num_regs fuse p = true ->
+  forall w e limited budget fuel,
+  match bc_run w e limited budget fuel p with Errored _ _ => False | _ => True end.
+Proof. intros n f p H w e lim b fu. exact (run_safe n f p H w e lim b fu). Qed.
+
 (** non-vacuity: a small program the checker accepts, with a loop, a temporary and a live set *)
 Definition demo : bprog :=
   {| bp_temps := 1; bp_min := 0; bp_max := 1; bp_live := [0; 0; 1; 0; 0];
@@ -72,3 +79,4 @@ Print Assumptions C11_cells_in_window.
 Print Assumptions C11_temps_in_range.
 Print Assumptions C11_defined_before_use.
 Print Assumptions C11_live_declared.
+Print Assumptions C11_never_leaves_code.
